@@ -143,6 +143,29 @@ def run(out: Outcome) -> None:
                 lines.append(f"ks {n} {w} " + " ".join(f2h(x) for x in ref + win))
                 expect.append(("IncrementalKSTest", float(r.statistic), float(r.p_value), rep, False))
         out.case({"incremental": True, "n": n, "window": w, "steps": len(stream), "h": hash(tuple(ref + stream)) & 0xFFFFFF})
+    # a second fit() on a running detector (no reset): the reference is replaced, the window keeps sliding
+    for _ in range(20 if thorough else 6):
+        w = rng.choice([2, 4, 6, 8])
+        ref1, ref2 = sample(rng, rng.choice([6, 8, 12])), sample(rng, rng.choice([5, 9, 10, 15]))
+        stream = sample(rng, 3 * w + 5)
+        cut = rng.randint(1, 2 * w)
+        inc = IncrementalKSTest(window_size=w)
+        inc.fit(X=np.array(ref1))
+        for v in stream[:cut]:
+            inc.update(value=v)
+        inc.fit(X=np.array(ref2))
+        bat = KSTest()
+        bat.fit(X=np.array(ref2))
+        for t in range(cut + 1, len(stream) + 1):
+            r, _ = inc.update(value=stream[t - 1])
+            rep = {"ref": ref2, "first_ref": ref1, "stream": stream[:t], "window": w, "kind": "refit", "refit_after": cut}
+            if t >= w and r is not None:
+                b, _ = bat.compare(X=np.array(stream[t - w: t]))
+                if abs(float(r.statistic) - float(b.statistic)) > 1e-12 or abs(float(r.p_value) - float(b.p_value)) > 1e-9 + 1e-3 * (float(b.p_value) > 0.999):
+                    out.violation(f"IncrementalKSTest after a second fit: (statistic, p)=({float(r.statistic)!r}, {float(r.p_value)!r}) differs from the batch test "
+                                  f"({float(b.statistic)!r}, {float(b.p_value)!r}) on the new reference and the last {w} values", rep)
+                    break
+        out.case({"refit_without_reset": True, "window": w, "n1": len(ref1), "n2": len(ref2), "h": hash(tuple(stream)) & 0xFFFFFF})
     # references above 10 000 values: asymptotic branch, batch vs incremental
     for n, w in ([(10001, 3), (10000, 4), (12000, 7)] if thorough else [(10001, 3), (10000, 4)]):
         ref = [rng.gauss(0, 1) for _ in range(n)]
